@@ -43,46 +43,70 @@ def run(f, fixture, rep, cfg, tier):
     # ---- R1 -------------------------------------------------------------------------------
     loops = v.loops()
     nx = [c for c in v.calls() if c.decl == "std::iter::Iterator::next" and "SplitWhitespace" in (c.self_ty or "")]
-    if rep.anchor(len(nx) == 1 and loops, "R1", "clause loop over split_whitespace() in validate_caps_text"):
-        item = "std::iter::Iterator::next(%s)<Some>.0" % render(tb.term(nx[0].args[0]))
-        blocks = [blks for (_h, blks) in loops if nx[0].bb in blks][0]
-        errs = error_blocks(v)
+
+    def clause_guards(cbody, ctb, item, blocks, head_bb, is_own_next):
+        """every branch of the per-clause code that can reject depends on the clause (`item`), not on something fixed for the text"""
+        errs = error_blocks(cbody)
+        oks = set(ok_assign_blocks(cbody))
+        # a tail call (`validate_suffix(rest)` as the last expression) is a success-capable return as well
+        oks |= {bb for (bb, idx, kind, payload, lhs_proj) in cbody.defs(0) if kind == "call" and cbody.call_at(bb).decl != "std::ops::FromResidual::from_residual"}
         n = 0
         for sb in sorted(blocks):
-            if v.term(sb)["t"] != "switch":
+            if cbody.term(sb)["t"] != "switch":
                 continue
-            info = switch_info(v, sb)
-            succs = v.succ(sb)
-            # does exactly one side lead to an error return without going round the loop?
-            rejecting = [s for s in succs if (reach_from(v, s, blocked_blocks={nx[0].bb}) & errs)]
-            passing = [s for s in succs if nx[0].bb in reach_from(v, s) or (reach_from(v, s) & set(ok_assign_blocks(v)))]
+            info = switch_info(cbody, sb)
+            succs = cbody.succ(sb)
+            blocked = {head_bb} if head_bb is not None else set()
+            rejecting = [s_ for s_ in succs if (reach_from(cbody, s_, blocked_blocks=blocked) & errs)]
+            passing = [s_ for s_ in succs if (head_bb is not None and head_bb in reach_from(cbody, s_)) or (reach_from(cbody, s_) & oks)]
             if not rejecting or len(rejecting) == len(succs) and not passing:
                 continue
             if info["kind"] == "discr":
-                dep = render(tb.term(info["place"]))
-                if "std::ops::Try::branch" in dep or dep.startswith(item[:40]) and info["place"] == op_place(v.term(sb)["d"]):
-                    pass
+                dep = render(ctb.term(info["place"]))
             elif info["kind"] == "bool":
-                dep = " ".join(render(tb.term(a)) for a in info["call"].args)
+                dep = " ".join(render(ctb.term(a)) for a in info["call"].args)
             elif info["kind"] == "cmp":
                 rv = info["stmt"]["rv"]
-                dep = render(tb.term(rv["a"])) + " " + render(tb.term(rv["b"]))
+                dep = render(ctb.term(rv["a"])) + " " + render(ctb.term(rv["b"]))
             elif info["kind"] == "value":
-                dep = render(tb.term(info["place"]))
+                dep = render(ctb.term(info["place"]))
             else:
-                pl = op_place(v.term(sb)["d"])
-                dep = render(tb.term(pl)) if pl else "?"
-            if info["kind"] == "discr" and canon_is_next(v, info, nx[0]):
+                pl = op_place(cbody.term(sb)["d"])
+                dep = render(ctb.term(pl)) if pl else "?"
+            if info["kind"] == "discr" and is_own_next(info):
                 continue  # the loop's own `match iter.next()`
             n += 1
             depends = item in dep
-            line = v.term(sb).get("line")
-            ordinal = n
+            line = cbody.term(sb).get("line")
             rep.check(depends, "R1", "guard|line-condition|%s" % ("item" if depends else re.sub(r"[^A-Za-z_:]+", "_", dep)[:60]),
                       "the rejecting branch at line %s depends on the clause" % line,
-                      "a rejecting branch inside the clause loop (line %s) tests %s, which does not depend on the clause being examined: the rule is applied to the whole text" % (line, dep[:160]),
-                      "%s:%s" % (v.file, line))
-        rep.floor("R1", "rejecting branches inside the clause loop", n, 3)
+                      "a rejecting branch of the per-clause code (line %s) tests %s, which does not depend on the clause being examined: the rule is applied to the whole text" % (line, dep[:160]),
+                      "%s:%s" % (cbody.file, line))
+        return n
+
+    # the per-clause code: the body of a loop over split_whitespace(), or a closure / function handed to an iterator adaptor over it
+    per_clause = None
+    if len(nx) == 1 and loops:
+        item = "std::iter::Iterator::next(%s)<Some>.0" % render(tb.term(nx[0].args[0]))
+        blocks = [blks for (_h, blks) in loops if nx[0].bb in blks][0]
+        per_clause = (v, tb, item, blocks, nx[0].bb, lambda info: canon_is_next(v, info, nx[0]))
+    else:
+        for c in v.calls():
+            if re.search(r"Iterator::(try_for_each|all|any|for_each|try_fold|find|find_map)$", c.decl) and c.args and "split_whitespace(" in render(tb.term(c.args[0])):
+                for lf in v.origins(c.args[-1], passthrough={}):
+                    cb_ = None
+                    if lf["kind"] == "agg" and lf["stmt"]["rv"].get("ak") == "closure":
+                        cb_ = f.bodies.get(lf["stmt"]["rv"]["closure"])
+                        pn = 2
+                    elif lf["kind"] == "const" and "fn" in lf["k"]:
+                        fnk = lf["k"]["fn"]
+                        cb_ = f.bodies.get((fnk.get("r") or {}).get("path") or fnk["path"])
+                        pn = 1
+                    if cb_ is not None:
+                        per_clause = (cb_, TermBuilder(cb_), cb_.local_name(pn) or "_%d" % pn, set(cb_.reachable()), None, lambda info: False)
+    if rep.anchor(per_clause is not None, "R1", "per-clause code of validate_caps_text (loop over split_whitespace() or an adaptor over it)"):
+        n = clause_guards(*per_clause)
+        rep.floor("R1", "rejecting branches in the per-clause code", n, 3)
 
     # ---- R2 / R3 ----------------------------------------------------------------------------
     ctors = []
